@@ -209,7 +209,12 @@ class Interp:
             interp.log.append("invoke %s %s %s %s" % (
                 fname, interp.sb.rel(target) if target is not None else "-", show_val(args), show_val(kwargs)))
             try:
-                return interp.block(interp.body_for(fname), builder, target, args, kwargs, {})
+                r = interp.block(interp.body_for(fname), builder, target, args, kwargs, {})
+                interp.exit_exc = None
+                return r
+            except BaseException as e:      # noqa
+                interp.exit_exc = e
+                raise
             finally:
                 interp.last_finished = builder
         return fn
@@ -292,6 +297,14 @@ class Interp:
             self.stats["errors"][exn_class(out.exc)] = self.stats["errors"].get(exn_class(out.exc), 0) + 1
         return out
 
+    def same_object(self, e, fname):
+        """C10/C08: an exception that left the user function is the object the call raises"""
+        ex = getattr(self, "exit_exc", None)
+        if ex is not None and e is not ex and self.cur is not None:
+            self.cur["entry_violations"].append("the exception raised by %s was replaced by another object (%s -> %s)"
+                                                % (fname, type(ex).__name__, type(e).__name__))
+        self.exit_exc = None
+
     def block(self, stmts, builder, target, args, kwargs, env):
         """Run a function body: the value of its `ret`, or None when it falls off the end."""
         returned, v = self.stmts(stmts, builder, target, args, kwargs, dict(env))
@@ -310,6 +323,7 @@ class Interp:
             elif k == "build_file":
                 _, x, path, cmp_, fname, a, kw = s
                 before = self.stats["invocations"]
+                self.exit_exc = None
                 try:
                     v = builder.build_file_with_comparison(
                         self.sb.abs(path), FileComparison[cmp_], fname, self.make_func(fname, True), *a, **kw)
@@ -325,6 +339,7 @@ class Interp:
                             self.cur["entry_violations"].append("build_file returned but target is not a regular file: " + pstr(path))
                 except Exception as e:       # noqa
                     env[x] = Out(exc=e)
+                    self.same_object(e, fname)
                     if self.cur is not None and not isinstance(e, TypeError):
                         tp = self.sb.abs(path)
                         # C10: after a failure the target does not exist (unless the failure was a refusal
@@ -335,6 +350,7 @@ class Interp:
             elif k == "subbuild":
                 _, x, fname, a, kw = s
                 before = self.stats["invocations"]
+                self.exit_exc = None
                 try:
                     v = builder.subbuild(fname, self.make_func(fname, False), *a, **kw)
                     env[x] = Out(val=v)
@@ -345,6 +361,7 @@ class Interp:
                             self.cur["hit_names"].append(fname)
                 except Exception as e:       # noqa
                     env[x] = Out(exc=e)
+                    self.same_object(e, fname)
             elif k == "write":
                 if target is not None:
                     with open(target, "w", encoding="utf-8") as f:
@@ -352,6 +369,13 @@ class Interp:
                     self.sb.stamp(target)
             elif k == "ret":
                 return True, self.vexpr(s[1], env, args)
+            elif k == "raise" and s[1] in ("TypeError", "OSError"):
+                # user code raising a class the library raises itself: it must still come out as this very object
+                ue = TypeError("raised by user code") if s[1] == "TypeError" else OSError(5, "raised by user code")
+                if self.cur is not None:
+                    self.cur["raised_ids"].append(id(ue))
+                    self.raised_objs[id(ue)] = ue
+                raise ue
             elif k == "raise":
                 ue = UserError(s[1])
                 if self.cur is not None:
@@ -667,6 +691,10 @@ class Emit:
             return "(Write %s %s)" % (self.cexpr(s[1]), R())
         if k == "ret":
             return "(Ret %s)" % self.vexpr(s[1])
+        if k == "raise" and s[1] == "TypeError":
+            return "(Raise XType)"
+        if k == "raise" and s[1] == "OSError":
+            return "(Raise (XOS XOSError))"
         if k == "raise":
             return "(Raise (XUser %d))" % s[1]
         if k == "reraise":
